@@ -1,5 +1,8 @@
 use std::{hash::BuildHasher, sync::Arc};
 
+#[cfg(transparencies_stretto_verif)]
+use crate::verif::locks::Mutex;
+#[cfg(not(transparencies_stretto_verif))]
 use parking_lot::Mutex;
 
 #[cfg(feature = "async")]
